@@ -248,9 +248,15 @@ func (g *GoFakeS3) listBucket(bucketName string, w http.ResponseWriter, r *http.
 
 	g.log.Print(LogInfo, "bucketName:", bucketName, "prefix:", prefix, "page:", fmt.Sprintf("%+v", page))
 
+	// A request without any paging parameter does not ask for a page (MaxKeys
+	// is only the default then): there is nothing to refuse a backend that
+	// cannot paginate for, it is simply asked for the listing.
+	_, limited := q["max-keys"]
+	failOnUnimplementedPage := g.failOnUnimplementedPage && (limited || page.HasMarker)
+
 	objects, err := g.storage.ListBucket(bucketName, &prefix, page)
 	if err != nil {
-		if err == ErrInternalPageNotImplemented && !g.failOnUnimplementedPage {
+		if err == ErrInternalPageNotImplemented && !failOnUnimplementedPage {
 			// We have observed (though not yet confirmed) that simple clients
 			// tend to work fine if you simply ignore pagination, so the
 			// default if this is not implemented is to retry without it. If
@@ -261,7 +267,7 @@ func (g *GoFakeS3) listBucket(bucketName string, w http.ResponseWriter, r *http.
 				return err
 			}
 
-		} else if err == ErrInternalPageNotImplemented && g.failOnUnimplementedPage {
+		} else if err == ErrInternalPageNotImplemented && failOnUnimplementedPage {
 			return ErrNotImplemented
 		} else {
 			return err
